@@ -247,6 +247,7 @@ fn main() {
         }
     }
     // report at most one violation per signature to keep the output small
+    ezpz_verif_harness::oracle::print_signature_counts(&out);
     let mut seen = std::collections::BTreeSet::new();
     for v in &out {
         if seen.insert(v.signature.clone()) || seen.len() < 1 {
